@@ -148,7 +148,9 @@ def run(tier, seed):
         if not av:
             continue
         reserved = all_upper_tokens(text)
-        invented = sorted(v for v in program_vars(b[1]) if v not in reserved)
+        # names derived from a support predicate's random identifier are normalised by the harness (X_0_...): they are not names the
+        # compiler would ever invent again, so they are not candidates for the adversarial renaming
+        invented = sorted(v for v in program_vars(b[1]) if v not in reserved and not re.match(r'X_\d+(_|$)', v))
         # 1. benign injective renaming
         m1 = {v: 'Q%dZ' % i for i, v in enumerate(av)}
         jobs.append((name, text, b[1], 'benign', m1))
@@ -158,6 +160,15 @@ def run(tier, seed):
             for sv in av:
                 for tv in pool:
                     jobs.append((name, text, b[1], 'adversarial', {sv: tv}))
+        # 3. chains: several author variables renamed to an invented name and its numbered successors (D, D1, D2)
+        chain_bases = [x for x in invented if not re.search(r'\d$', x)][:(len(invented) if name.startswith('regressions/') else 1)]
+        for base_v in chain_bases:
+            for start in range(len(av) if name.startswith('regressions/') else 1):
+                src = av[start:start + 3]
+                tgt = [base_v] + ['%s%d' % (base_v, i) for i in range(1, len(src))]
+                m = dict(zip(src, tgt))
+                if not (set(tgt) & (reserved - set(src))):
+                    jobs.append((name, text, b[1], 'adversarial', m))
         for _ in range(4 if tier == 'thorough' else 2):
             if not pool:
                 break
